@@ -3,7 +3,7 @@
 mod address;
 mod env;
 mod ohm;
-use ohm::{gen_ops, run_ops, Op, Rng};
+use ohm::{gen_ops, gen_wait_ops, run_ops, run_wait_ops, Op, Rng, WOp};
 use std::sync::mpsc;
 use std::time::{Duration, Instant};
 
@@ -19,6 +19,26 @@ fn run_with_timeout(ops: Vec<Op>) -> Result<(), String> {
     }
 }
 
+fn run_wait_with_timeout(nthreads: usize, ops: Vec<WOp>) -> Result<(), String> {
+    let (tx, rx) = mpsc::channel();
+    std::thread::spawn(move || {
+        let r = std::panic::catch_unwind(|| run_wait_ops(nthreads, &ops));
+        let _ = tx.send(match r { Ok(r) => r, Err(_) => Err("panic inside the wait-queue code (a link-state assertion failed)".to_string()) });
+    });
+    match rx.recv_timeout(Duration::from_millis(1500)) {
+        Ok(r) => r,
+        Err(_) => Err("a wait-queue operation does not terminate".to_string()),
+    }
+}
+
+fn wait_case(seed: u64, iter: u64) -> (usize, Vec<WOp>) {
+    let mut rng = Rng((seed.wrapping_mul(0x9E3779B97F4A7C15) ^ iter.wrapping_mul(0xD1B54A32D192ED03)) | 1);
+    let n = [10usize, 40, 150, 600][rng.below(4)];
+    let nthreads = [1usize, 2, 3, 8, 40][rng.below(5)];
+    let with_gc = rng.below(2) == 0;
+    (nthreads, gen_wait_ops(&mut rng, n, nthreads, with_gc))
+}
+
 fn case(seed: u64, iter: u64) -> Vec<Op> {
     let mut rng = Rng((seed.wrapping_mul(0x9E3779B97F4A7C15) ^ iter.wrapping_mul(0xD1B54A32D192ED03)) | 1);
     let n = [20usize, 60, 200, 1000][rng.below(4)];
@@ -27,8 +47,15 @@ fn case(seed: u64, iter: u64) -> Vec<Op> {
 }
 
 fn main() {
-    std::panic::set_hook(Box::new(|_| {}));
+    if std::env::var("VX_BACKTRACE").is_err() { std::panic::set_hook(Box::new(|_| {})); }
     let args: Vec<String> = std::env::args().collect();
+    if args.len() >= 4 && args[1] == "replay-wait" {
+        let (nt, ops) = wait_case(args[2].parse().unwrap(), args[3].parse().unwrap());
+        match run_wait_with_timeout(nt, ops.clone()) {
+            Ok(()) => { println!("case passes on the real code"); std::process::exit(0) }
+            Err(e) => { println!("STILL FAILS on the real code: {} ({} threads, {} operations; first: {:?})", e, nt, ops.len(), &ops[..ops.len().min(8)]); std::process::exit(1) }
+        }
+    }
     if args.len() >= 4 && args[1] == "replay" {
         let ops = case(args[2].parse().unwrap(), args[3].parse().unwrap());
         match run_with_timeout(ops.clone()) {
@@ -45,7 +72,13 @@ fn main() {
             println!("{{\"found\":true,\"seed\":{},\"iter\":{},\"tried\":{},\"what\":{:?}}}", seed, iter, iter + 1, e);
             std::process::exit(0);
         }
+        // the wait queues built on the table (every other case)
+        let (nt, wops) = wait_case(seed, iter);
+        if let Err(e) = run_wait_with_timeout(nt, wops) {
+            println!("{{\"found\":true,\"kind\":\"wait\",\"seed\":{},\"iter\":{},\"tried\":{},\"what\":{:?}}}", seed, iter, iter + 1, e);
+            std::process::exit(0);
+        }
         iter += 1;
     }
-    println!("{{\"found\":false,\"tried\":{}}}", iter);
+    println!("{{\"found\":false,\"tried\":{},\"wait_queue_cases\":{}}}", iter, iter);
 }
